@@ -149,5 +149,8 @@ func ZReps(seed int64, nSeeded int) []Val {
 	// (a test for "Z is one" on raw limbs takes it for affine), Z = 2^-192 as {0,1,0,0}
 	rinv := new(big.Int).ModInverse(new(big.Int).Lsh(big.NewInt(1), 256), ref.P)
 	out = append(out, Val{"Z stored as limbs {1,0,0,0} (2^-256)", rinv}, Val{"Z stored as limbs {0,1,0,0} (2^-192)", ref.ModP(new(big.Int).Mul(rinv, new(big.Int).Lsh(big.NewInt(1), 64)))})
+	// ... and the two upper limbs alone (a zero test or comparison that skips a limb sees "Z = 0", i.e. the identity)
+	out = append(out, Val{"Z stored as limbs {0,0,1,0} (2^-128)", ref.ModP(new(big.Int).Mul(rinv, new(big.Int).Lsh(big.NewInt(1), 128)))},
+		Val{"Z stored as limbs {0,0,0,2} (2^-63)", ref.ModP(new(big.Int).Mul(rinv, new(big.Int).Lsh(big.NewInt(1), 193)))})
 	return out
 }
